@@ -262,6 +262,9 @@ func (e *SpecEnv) object(obj types.Object) SVal {
 		e.Side.UseFnID(id)
 		return SVal{T: IntLit(int64(id)), Go: o.Type()}
 	case *types.Var:
+		if o.Pkg() != nil && o.Pkg().Path() == "io" && o.Name() == "EOF" {
+			return SVal{T: Term{"io.EOF!", SIface}, Go: o.Type()}
+		}
 		// package-level variable: pointer to its cell
 		ref := Term{"glob!" + sanitize(shortPkg(o.Pkg().Path())+"."+o.Name()), SInt}
 		t := o.Type()
